@@ -360,6 +360,13 @@ def add_worm_gear_mating(
     worm_gear.self_locking = self_locking
     slave.master_gear_efficiency = efficiency
 
+    worm_wheel = slave if isinstance(slave, WormWheel) else master
+    if worm_wheel.tangential_force_is_computable:
+        if worm_wheel.bending_stress_is_computable:
+            worm_wheel.time_variables.setdefault('bending stress', [])
+        else:
+            worm_wheel.time_variables.pop('bending stress', None)
+
 
 def add_fixed_joint(
     master: RotatingObject,
